@@ -660,6 +660,21 @@ def _check_proto(run, world, folder, mod, c):
                "then indexes past the buffer" % exp_iv.lo,
                where(mod, len_guard if isinstance(len_guard, ast.AST)
                      else fn))
+    if exp_iv is not None:
+        # the handlers state which payload lengths they expect (tests of the
+        # length byte against constants); the length state must let each of
+        # them through, or the packet is dropped before its handler runs
+        stated = _stated_lengths(c)
+        run.floor("%s payload lengths stated by handlers" % c.name,
+                  len(stated), 1)
+        for (k_, hn, hnode) in stated:
+            run.ob("R-BOUND", "%s#handler-length-accepted:%s=%d" % (
+                P, hn, k_), exp_iv.lo <= k_ <= exp_iv.hi,
+                "%s expects packets with a payload of %d bytes but the "
+                "length state accepts %s only: the well-formed packet is "
+                "discarded as noise and never decoded" % (hn, k_, exp_iv),
+                where(mod, len_guard if isinstance(len_guard, ast.AST)
+                      else fn))
     n_sites = 0
     for (state, body, node) in branches:
         for x in _walk_stmts(body):
@@ -844,6 +859,9 @@ def _check_proto(run, world, folder, mod, c):
     # ---- R-FSM-CHK -------------------------------------------------------------
     run.rule("R-FSM-CHK", "receiver checksum span / start byte == "
              "transmitter's")
+    if "_insert_checksum" not in c.methods:
+        raise AnalysisError("%s._insert_checksum vanished: the transmitter's "
+                            "checksum span cannot be read" % P)
     ifn = c.methods["_insert_checksum"][1]
     # the transmitter's span, by evaluating _insert_checksum on a list of
     # symbols: which elements are XOR-ed into the last slot
@@ -1646,3 +1664,37 @@ def _check_sci_reply(run, world, folder, mod, c):
                    "upper" if fld == "id" else "lower",
                    want[fld](bad[0]) if bad else 0),
                where(mod, r[2]))
+
+
+def _stated_lengths(c):
+    """[(length, handler name, node)]: integer constants the per-type
+    handlers compare the packet's length byte (`self._buffer[2]`, directly
+    or through a local) with."""
+    out = []
+    for (mn, (kind, f)) in sorted(c.methods.items()):
+        if not mn.startswith("_process_") or mn == "_process_byte":
+            continue
+        al = {"self._buffer[2]"}
+        for n in ast.walk(f):
+            if isinstance(n, ast.Assign) and len(n.targets) == 1 and \
+                    isinstance(n.targets[0], ast.Name) and unparse(
+                        n.value) in al:
+                al.add(n.targets[0].id)
+        for n in ast.walk(f):
+            if not isinstance(n, ast.Compare) or len(n.ops) != 1:
+                continue
+            l, r = n.left, n.comparators[0]
+            if unparse(r) in al and not unparse(l) in al:
+                l, r = r, l
+            if unparse(l) not in al:
+                continue
+            if not isinstance(n.ops[0], (ast.Eq, ast.NotEq, ast.In,
+                                         ast.NotIn)):
+                continue
+            elts = r.elts if isinstance(r, (ast.List, ast.Tuple, ast.Set)) \
+                else [r]
+            for e in elts:
+                if isinstance(e, ast.Constant) and type(e.value) is int:
+                    if (e.value, mn) not in [(a, b) for (a, b, _) in out]:
+                        out.append((e.value, mn, n))
+    return out
